@@ -274,3 +274,18 @@ pub fn edge_points() -> &'static Vec<(String, BigUint, BigUint)> {
         out
     })
 }
+
+/// The reference point `q` as a library object in representation `kind`: 0 affine; 1 what the library computes itself ([k]G by g_mul, when
+/// k is known — otherwise affine); 2 Z = 2; 3 pseudo-random Z; 4 Z whose Montgomery limbs are the plain integer 1 (field element R^-1); 5 Z = p - 1.
+pub fn point_in_rep(q: &Pt<Fp>, k: Option<&BigUint>, kind: u8, seed: u64) -> Point {
+    let p = r2::p_static();
+    let rinv = mod_inv(&(r256() % p), p).unwrap();
+    match (kind % 6, k) {
+        (1, Some(k)) => gm_sm2::p256_ecc::g_mul(&to_limbs(k)),
+        (2, _) => lib_point(q, &BigUint::from(2u32)),
+        (3, _) => lib_point(q, &(crate::refimpl::field::from_be(&crate::engine::expand_bytes(seed ^ 0x2e1, 32)) % (p - 2u32) + 2u32)),
+        (4, _) => lib_point(q, &rinv),
+        (5, _) => lib_point(q, &(p - 1u32)),
+        _ => lib_point(q, &BigUint::one()),
+    }
+}
